@@ -505,13 +505,27 @@ def check_property(prop, cfg, tier, seed, replay_file=None):
             if key not in seen:
                 seen.add(key)
                 nontriv += 1
+    def shrink(x, depth=0):
+        """evidence samples are illustrations, not replays: long arrays and strings are abbreviated so that the
+        evidence file stays small (the full failing case, if any, is in the replay file)"""
+        if isinstance(x, list):
+            if len(x) > 24:
+                return [shrink(y, depth + 1) for y in x[:12]] + ["... (%d elements in all)" % len(x)]
+            return [shrink(y, depth + 1) for y in x]
+        if isinstance(x, dict):
+            return {k: shrink(v, depth + 1) for k, v in list(x.items())[:40]}
+        if isinstance(x, str) and len(x) > 400:
+            return x[:200] + "... (%d characters in all)" % len(x)
+        return x
+
     samples = []
     seen_groups = {}
     for l in lines:
         g = l.get("group", "")
         if seen_groups.get(g, 0) < 2 and l.get("nontrivial"):
             seen_groups[g] = seen_groups.get(g, 0) + 1
-            samples.append({"case": l["case"], "obs": l["obs"], "verdict": VERDICT.get(l.get("verdict"), l.get("verdict"))})
+            samples.append({"case": shrink(l["case"]), "obs": shrink(l["obs"]),
+                            "verdict": VERDICT.get(l.get("verdict"), l.get("verdict"))})
     thm_samples = [{"obligation": t, "assumptions": ob["assumptions"].get(t, "not checked")}
                    for t in ob["theorems"][:4]]
     ev = {
